@@ -101,7 +101,11 @@ def cval(v):
 
 
 class Walker:
-    def __init__(self, timestamps=True, data=True, seen=False):
+    def __init__(self, timestamps=True, data=True, seen=False, top_id=None):
+        # the walked entity itself: when a digest would have to describe it (a link cycle leading back to it),
+        # ``cyclic`` is set - such digests are not comparable between a source and its (renamed, re-id'd) copy
+        self.top_id = top_id
+        self.cyclic = False
         self.timestamps = timestamps
         self.data = data
         # seen=True: every link ({"ref": id}) also carries "seen", a digest of what is visible THROUGH that link
@@ -138,6 +142,9 @@ class Walker:
                 return "feature:%s:%s" % (x.data.name, x.link_type.value)
             except Exception as exc:  # noqa
                 return "feature:raises " + type(exc).__name__
+        if self.top_id is not None and getattr(x, "id", None) == self.top_id:
+            self.cyclic = True
+            return "%s:<top>" % type(x).__name__
         return "%s:%s" % (type(x).__name__, getattr(x, "name", None))
 
     def summary(self, o, top=False):
@@ -226,7 +233,7 @@ def walk(nixfile, timestamps=True, data=True, seen=False):
 
 
 def walk_obj(obj, timestamps=True, data=True, seen=False):
-    return Walker(timestamps, data, seen).obj(obj)
+    return Walker(timestamps, data, seen, getattr(obj, "id", None) if seen else None).obj(obj)
 
 
 # ------------------------------------------------------------------ comparison helpers
